@@ -390,6 +390,58 @@ def backref_samples(draw, universe, strs=None):
 
 
 @st.composite
+def numeric_family_samples(draw, universe, strs=None):
+    """one field seen as int / int string / float / null / missing / another kind, in sibling objects that get merged and in list
+    records spread over samples, in drawn order (the same member can reach one union twice: from a plain and from an Optional variant)"""
+    ks = list(draw(st.permutations(universe)))
+    f = ks[0]
+    fam = draw(st.sampled_from([[1, 2, 2.5, "s"], ["1", "2", 3, None], ["1", "2", "2.5", None], [1, None, 2.5, 7], ["true", "false", None, "1"]]))
+    common = {k: 0 for k in (ks[1:3] + ["c1", "c2"])[:2]}
+    variants = []
+    for v in draw(st.permutations(fam)):
+        o = dict(common)
+        o[f] = v
+        variants.append(o)
+    if draw(st.booleans()):
+        variants.insert(draw(st.integers(0, len(variants))), dict(common))      # the key is missing in one variant
+    mode = draw(st.integers(0, 2))
+    if mode == 0:       # sibling objects under different keys of one root: separate models, merged by merge_models
+        h = ["h%d" % i for i in range(len(variants))]
+        return [{k: v for k, v in zip(h, variants)}]
+    if mode == 1:       # list records spread over samples (some samples with several records)
+        cut = draw(st.integers(1, len(variants) - 1))
+        cut2 = draw(st.integers(cut, len(variants)))
+        parts = [variants[:cut], variants[cut:cut2], variants[cut2:]]
+        return [{"items": p} for p in parts if p]
+    return [{"first": variants[0], "rest": variants[1:]}]
+
+
+@st.composite
+def reordered_records_samples(draw, universe, strs=None):
+    """records with the same keys and value types but another key order (equal as dicts, different as sequences), next to a
+    differently shaped record, in a list field spread over samples"""
+    ks = list(draw(st.permutations(universe)))
+    f = ks[0]
+    uf = {fold(u) for u in universe}
+    rec_keys = (ks[1:] + [k for k in ["id", "score", "rank"] if fold(k) not in uf])[:draw(st.integers(2, 3))]
+    vals = [draw(st.sampled_from([1, 2.5, True, "x" * 25, None])) for _ in rec_keys]
+    a = dict(zip(rec_keys, vals))
+    b = dict(reversed(list(a.items())))
+    other = {("tag" if "tag" not in uf else "zz_tag"): draw(st.sampled_from([1, "t", None]))}
+    if draw(st.booleans()):
+        other[rec_keys[0]] = vals[0]
+    first, second = [a, b], [dict(a), other]
+    if draw(st.booleans()):
+        second = [other, dict(b)]
+    samples = [{f: first}, {f: second}]
+    if draw(st.booleans()):
+        samples.reverse()
+    if draw(st.integers(0, 2)) == 0:
+        samples = [{f: first + second}]
+    return samples
+
+
+@st.composite
 def same_named_children(draw, universe):
     """-> (samples, merge policy).  Sibling parents that the number policy merges (N common keys), each with a child object
     under the same key whose key names are equal but whose value types differ and which has fewer than N keys: the children
@@ -591,6 +643,8 @@ def sample_lists(universe, strs=None, max_samples=5, max_leaves=10, weights=None
         presence_samples(universe, strs),
         shared_child_samples(universe, strs),
         backref_samples(universe, strs),
+        reordered_records_samples(universe, strs),
+        numeric_family_samples(universe, strs),
         dictlike_samples(universe, strs),
         literal_boundary_samples(universe, strs),
         comma_collision_samples(universe, strs),
@@ -621,6 +675,7 @@ def sregs():
     return st.one_of(
         st.just(PSEUDO_NAMES[:3]), st.just(PSEUDO_NAMES[:3]), st.just(list(PSEUDO_NAMES)), st.just(list(PSEUDO_NAMES)),
         st.just([]),
+        st.sampled_from([["IntString", "BooleanString"], ["IntString"], ["FloatString", "BooleanString"]]),   # no replace pair at all
         st.lists(st.sampled_from(PSEUDO_NAMES), max_size=6, unique=True))
 
 
